@@ -8,7 +8,7 @@
    active entry (selected value, else default, else failure); other maps and lists keep
    their shape with children resolved.  WF is the quantifier of the property.              *)
 From Coq Require Import List String Bool Arith.
-From GT Require Import GConfModel GConfProofs.
+From GT Require Import GConfModel GConfProofs GConfPermProofs.
 Import ListNotations.
 Local Open Scope string_scope.
 
@@ -41,6 +41,21 @@ Theorem C03_active_default : forall d (kv : list (string * tree)),
   (forall k c, In (k, c) kv -> k <> default_key -> d_parse d k <> Some (d_sel d)) ->
   active_entry d kv = assoc default_key kv.
 Proof. exact active_default. Qed.
+
+(* Go ranges over a map in an arbitrary order.  teq identifies documents up to the order of
+   the entries of every map (distinct keys); on well-formed documents the resolution — of the
+   specification and of the code — respects it: same configuration (as maps), same failures *)
+Theorem C03_spec_order_irrelevant : forall dims t p t',
+  WF dims p t -> teq t t' -> req (resolve_spec dims t) (resolve_spec dims t').
+Proof. exact resolve_teq. Qed.
+
+Theorem C03_order_irrelevant : forall dims t p t' p',
+  WF dims p t -> WF dims p' t' -> teq t t' -> req (reduce dims t) (reduce dims t').
+Proof. exact reduce_teq. Qed.
+
+Theorem C03_get_order_irrelevant : forall path t t',
+  teq t t' -> oeq (subtree_at t path) (subtree_at t' path).
+Proof. exact subtree_teq. Qed.
 
 (* maps that are not switches keep their keys, children resolved; lists likewise *)
 Theorem C03_plain : forall dims kv,
@@ -107,6 +122,27 @@ Example C03_example_agree :
                 (Mp [("D1b", Str "v"); ("default", Lst [])]).
 Proof. eapply Ag_switch; try (vm_compute; reflexivity). apply Ag_refl. Qed.
 
+Example C03_example_teq :
+  teq (Mp [("D1b", Str "v"); ("default", Lst [Mp [("x", Null); ("y", Str "s")]])])
+      (Mp [("default", Lst [Mp [("y", Str "s"); ("x", Null)]]); ("D1b", Str "v")]).
+Proof.
+  assert (Hin : teq (Mp [("x", Null); ("y", Str "s")]) (Mp [("y", Str "s"); ("x", Null)])).
+  { constructor.
+    - repeat constructor; cbn; intuition discriminate.
+    - repeat constructor; cbn; intuition discriminate.
+    - intros k c [H|[H|[]]]; inversion H; subst; eexists; (split; [|constructor]); cbn; tauto.
+    - intros k c [H|[H|[]]]; inversion H; subst; eexists; (split; [|constructor]); cbn; tauto. }
+  constructor.
+  - repeat constructor; cbn; intuition discriminate.
+  - repeat constructor; cbn; intuition discriminate.
+  - intros k c [H|[H|[]]]; inversion H; subst; eexists; (split; [cbn; tauto|]).
+    + constructor.
+    + constructor. constructor; [exact Hin| constructor].
+  - intros k c [H|[H|[]]]; inversion H; subst; eexists; (split; [cbn; tauto|]).
+    + constructor. constructor; [exact Hin| constructor].
+    + constructor.
+Qed.
+
 Example C03_example_stuck : Stuck dims123 (Mp [("k", Lst [Mp [("D1a", Null)]])]).
 Proof.
   eapply St_plain; [vm_compute; reflexivity| left; reflexivity|].
@@ -143,6 +179,9 @@ Print Assumptions C03_load.
 Print Assumptions C03_switch.
 Print Assumptions C03_active_selected.
 Print Assumptions C03_active_default.
+Print Assumptions C03_spec_order_irrelevant.
+Print Assumptions C03_order_irrelevant.
+Print Assumptions C03_get_order_irrelevant.
 Print Assumptions C03_plain.
 Print Assumptions C03_list.
 Print Assumptions C03_get.
